@@ -192,6 +192,83 @@ def run(ctx, report):
     R7 = report.rule('C18.D7', 'branch family: the rendered text is accepted by exactly its own class and assembles back to the same BO/BI/AA/LK', floor=12)
     branch_trip_rule(ctx, R7, M, mod)
 
+    # ---------------------------------------------------------------- D8 every class: decode -> render -> assemble -> encode on boundary vectors
+    R8 = report.rule('C18.D8', 'every class: the rendered text is accepted by exactly its own class and assembles back to the same fields', floor=70)
+    generic_trip_rule(ctx, R8, M, mod)
+
+
+def generic_trip_rule(ctx, R, M, mod):
+    from ..ppctrip import Trip
+    from ..ppcbranch import Raised
+    T = Trip(ctx, M)
+    n_eval = 0
+    for cname in M.tab_mn:
+        if cname in ('ppc_bc', 'ppc_bctr'):
+            continue            # exhaustively covered by D7
+        fields = M.fields(cname)
+        var, vecs = trip_vectors(M, cname, fields)
+        bad = {}
+        for raw in vecs:
+            n_eval += 1
+            word = 0
+            for i, f in enumerate(fields):
+                v = int(f.fbits, 2) if f.fbits is not None else raw[i]
+                word |= v << (32 - f.start - f.l)
+            try:
+                text, (kind, out) = T.trip(cname, fields, raw)
+            except Raised as e:
+                stage = str(e).split(':')[0].split('.')[-1] if ':' in str(e) else '?'
+                bad.setdefault('raises:%s:%s' % (e.exc_name, stage), []).append((word, None, str(e)))
+                continue
+            if kind == 'classes':
+                bad.setdefault('classes:%s' % ','.join(out), []).append((word, text, None))
+                continue
+            for i in var:
+                if out[i] & ((1 << fields[i].l) - 1) != raw[i]:
+                    bad.setdefault('field:%s' % fields[i].cname[3:], []).append((word, text, out[i]))
+        inst = 'trip %s' % cname
+        if not bad:
+            R.ok(inst, sample='%s: %d vectors come back' % (cname, len(vecs)))
+            continue
+        for what, lst in sorted(bad.items()):
+            word, text, extra = lst[0]
+            if what.startswith('raises:'):
+                msg = '%s: %d of %d sampled words cannot make the trip, e.g. %#010x: %s' % (cname, len(lst), len(vecs), word, extra[:110])
+            elif what.startswith('classes:'):
+                msg = '%s: the text %r rendered for %#010x is accepted by %s instead of exactly %s (%d of %d sampled words)' % (
+                    cname, text, word, what[8:] or 'no class', cname, len(lst), len(vecs))
+            else:
+                msg = '%s: field %s is not reproduced for %d of %d sampled words, e.g. %#010x renders as %r and comes back with %s=%#x' % (
+                    cname, what[6:], len(lst), len(vecs), word, text, what[6:], extra)
+            R.violation(inst + ':' + what, 'trip:%s:%s' % (cname, what), msg, where(mod, mod.cls(cname)), witness='ppc_mn.asm(str(ppc_mn(%#010x)))' % word)
+    R.note('%d words rendered and assembled back by static evaluation of the class methods (tools/validate_ppctrip.py: agreement with the real module on every sampled word at authoring time)' % n_eval)
+
+
+def trip_vectors(P, cname, fields):
+    """Boundary vectors of raw field values: every allowed extended opcode x (all 0, all 1, all max, each field max alone)."""
+    c = P.classes[cname]
+    var = [i for i, f in enumerate(fields) if f.fbits is None]
+    setvals = {}
+    for s_ in c.bmsets:
+        for i in var:
+            f = fields[i]
+            if f.start == s_.off and f.l == s_.l:
+                setvals[i] = sorted(set(v for v in s_.values if 0 <= v < (1 << s_.l)))
+    free = [i for i in var if i not in setvals]
+    base = [dict((i, 0) for i in free), dict((i, 1) for i in free), dict((i, (1 << fields[i].l) - 1) for i in free)]
+    for j in free:
+        v = dict((i, 0) for i in free)
+        v[j] = (1 << fields[j].l) - 1
+        base.append(v)
+    out = []
+    combos = list(itertools.product(*[setvals[i] for i in sorted(setvals)])) if setvals else [()]
+    for cb in combos:
+        for b in base:
+            v = dict(b)
+            v.update(dict(zip(sorted(setvals), cb)))
+            out.append(v)
+    return var, out
+
 
 def branch_trip_rule(ctx, R, M, mod):
     import re
@@ -499,6 +576,9 @@ def check_arch(M, mod, R, cname, ci, ref):
 
 
 MUTANTS = [
+    ('exts-no-dot', 'miasmx/arch/ppc_arch.py', "    do_args = [('ra',reg), ('rs',reg)]\n\n    @classmethod\n    def check_opts(cls, rest):\n        if rest in [\"\", \".\"]:\n            return True\n        return False\n", "    do_args = [('ra',reg), ('rs',reg)]\n", 'C18.D8'),
+    ('sc-operand-dropped', 'miasmx/arch/ppc_arch.py', "        if args:\n            self.offs = str2imm(args.pop())\n", "", 'C18.D8'),
+    ('sr-not-registers', 'miasmx/arch/ppc_arch.py', "+fpr_str+spr_str+sr_str\n", "+fpr_str+spr_str\n", 'C18.D8'),
     ('bctr-cr-ignored', 'miasmx/arch/ppc_arch.py', "        if args:\n            tmp = str2cr(args.pop())", "        if len(args) >1:\n            tmp = str2cr(args.pop())", 'C18.D7'),
     ('bc-AL-order', 'miasmx/arch/ppc_arch.py', "        if self.lk:\n            name+='L'\n        if self.aa:\n            name+='A'\n", "        if self.aa:\n            name+='A'\n        if self.lk:\n            name+='L'\n", 'C18.D7'),
     ('cond-whitelist-arm', 'miasmx/arch/ppc_arch.py', "                if not is_symbol(a) or a in ppc_bc.all_tests:", "                if not is_symbol(a) or a in bm_cond.n:", 'C18.D7'),
